@@ -163,11 +163,30 @@ def install(models, state):
             raise Unsupported("parse_check_lex on " + repr(t)[:40])
         return state["parse"](ex, t)
 
+    # the text of a virtual file is opaque up to emptiness (what a caller could reasonably ask before parsing it)
+    @R(r"^core::str::<impl str>::(trim|trim_end|trim_start|is_empty|len)$")
+    def _filetext_ops(ex, c, a):
+        t = deref(a[0])
+        if not isinstance(t, FileText):
+            return state["fallback"](ex, c, a)
+        if c.endswith("is_empty"):
+            return not t.words.strip()
+        if c.endswith("len"):
+            return len(t.words.strip())
+        return t
+
     @R(r"^<std::io::Error as Drop>::drop$|^std::ptr::drop_in_place::<std::io::Error>$")
     def _dropio(ex, c, a):
         return UNIT
     new = models.table[n0:]
     del models.table[n0:]
+    # the generic string models answer for everything that is not a FileText
+    def fallback(ex, c, a):
+        for rx_, fn in models.table:
+            if fn not in [f for _, f in new] and rx_.search(c):
+                return fn(ex, c, a)
+        raise Unsupported("call " + c)
+    state["fallback"] = fallback
     models.table[0:0] = new
     models.force.add("get_file_search_paths_from_env"); models.force.add("oq3_syntax::<impl oq3_syntax::SourceFile>::parse_check_lex")
     models._cache_lookup.clear()
